@@ -215,7 +215,8 @@ def run(ctx):
     for i in range(ctx.budget(90, 2000)):
         rng = ctx.rng("cyc", i)
         name = "kFlowDecompCycles" if i % 3 else "MinFlowDecompCycles"
-        info = zoo.make(rng, name, node=False, with_cons=rng.random() < 0.3, with_ignore=rng.random() < 0.3, nmax=6)
+        node = rng.random() < 0.3
+        info = zoo.make(rng, name, node=node, with_cons=rng.random() < 0.3, with_ignore=rng.random() < 0.3, nmax=6)
         r = rng.random()
         opts = None if r < 0.25 else {f: (rng.random() < 0.5) for f in CYC}
         if opts is not None:
@@ -234,9 +235,53 @@ def run(ctx):
         except Exception as e:
             ctx.report(f"{name} raised {e!r}", {"class": name, "instance": zoo.describe(info)}); continue
         ctx.case(["cyc", zoo.describe(info)], nontrivial=True)
-        if m.is_solved():
+        if m.is_solved() and node:
+            # node-weighted input: every non-ignored node's weight = sum over walks of weight * number of visits
+            ctx.count("E2_explains_flow", "cyclic_node_mode_solved")
+            sol = m.get_solution(); G = info["G"]; exact = info["kwargs"]["weight_type"] == int
+            rep = {"class": name, "instance": zoo.describe(info), "solution": {"walks": sol["walks"], "weights": sol["weights"]}}
+            if len(sol["walks"]) != len(sol["weights"]):
+                ctx.report("number of weights differs from number of walks", rep); continue
+            acc = {}
+            for wk, w in zip(sol["walks"], sol["weights"]):
+                for v in wk:
+                    acc[v] = acc.get(v, 0) + (F(w) if exact else float(w))
+            bad = next((f"node {v!r}: explained {acc.get(v, 0)} != weight {d['flow']}" for v, d in G.nodes(data=True)
+                        if "flow" in d and v not in info["ignore"] and abs(float(acc.get(v, 0)) - float(d["flow"])) > (0 if exact else 1e-6 * (1 + len(sol["walks"])))), None)
+            if bad:
+                ctx.report(f"{name} (node-weighted): returned decomposition does not explain the node weights: {bad}", rep)
+        elif m.is_solved():
             ctx.count("E2_explains_flow", "cyclic_solved")
             check_solution(ctx, name, args, m, m.get_solution(), routes_key="walks")
         else:
             ctx.count("E2_explains_flow", "cyclic_unsolved")
+    # node-weighted walks through a self-loop: the node is visited once per traversal and its weight counts every visit
+    for r in (1, 2, 3):
+        for w in (1, 2, 2.5):
+            for name in ("kFlowDecompCycles", "MinFlowDecompCycles"):
+                G = nx.DiGraph(); G.graph["id"] = "graph 1"
+                wt = float if isinstance(w, float) else int
+                G.add_node("s", flow=wt(w)); G.add_node("a", flow=wt(w * (r + 1))); G.add_node("b", flow=wt(w)); G.add_node("t", flow=wt(w))
+                G.add_edge("s", "a"); G.add_edge("a", "a"); G.add_edge("a", "b"); G.add_edge("b", "t")
+                kw = dict(flow_attr="flow", flow_attr_origin="node", weight_type=wt, solver_options={"threads": THREADS})
+                if name == "kFlowDecompCycles":
+                    kw["k"] = 1
+                rep = {"class": name, "family": "self-loop node mode", "r": r, "w": w}
+                ctx.case(["selfloop", name, r, w], nontrivial=True); ctx.count("E2_explains_flow", "selfloop_family")
+                try:
+                    m = getattr(fp, name)(G, **kw); m.solve()
+                except Exception as e:
+                    ctx.report(f"{name} raised {e!r}", rep); continue
+                if not m.is_solved():
+                    # w * (r+1) visits need r loop traversals: beyond the implementation's cap this is the open scale finding of C04
+                    ctx.count("E2_explains_flow", "selfloop_family_unsolved"); continue
+                sol = m.get_solution(); rep["solution"] = {"walks": sol["walks"], "weights": sol["weights"]}
+                acc = {}
+                for wk, x in zip(sol["walks"], sol["weights"]):
+                    for v in wk:
+                        acc[v] = acc.get(v, 0) + float(x)
+                bad = next((f"node {v!r}: explained {acc.get(v, 0)} != weight {d['flow']}" for v, d in G.nodes(data=True)
+                            if abs(acc.get(v, 0) - float(d["flow"])) > 1e-6), None)
+                if bad:
+                    ctx.report(f"{name} (node-weighted, self-loop): returned decomposition does not explain the node weights: {bad}", rep)
     VB.flush()
